@@ -178,7 +178,10 @@ fn main() {
         "x + A[s] <= 1", "x + A[b] <= 1", "x + A[G] <= 1", "x + M[0][s] <= 1", "x + n[0] <= 1", "x + s[0] <= 1", "x + G[0] <= 1", "x_{G} >= 0", "x_{A} >= 0", "x_{M[0]} >= 0",
         "x + (s + 1) <= 2", "x + (1 + s) <= 2", "x + (s + s) <= 2", "x + (s * 2) <= 2", "(b and n) or x >= 0", "x + (not n) <= 1", "x + (-s) <= 1", "x + (-G) <= 1", "x + (A + 1) <= 1", "x + (G * 2) <= 1", "x + (b + 1) <= 2", "x + (b * k) <= 2", "x + (n / b) <= 2",
         "x >= 0 for i in n", "x >= 0 for i in s", "x >= 0 for i in G", "x >= 0 for i in b", "x >= 0 for i in 0..s", "x >= 0 for i in b..3", "x >= 0 for i in 0..A", "x >= 0 for i in A[0]", "x >= 0 for i in M[0]", "x >= 0 for i in M[0][0]",
-        "min { x, s } >= 0", "max { x, G } >= 0", "abs { s } >= 0", "avg { x, A } >= 0", "all { b, n } ", "any { s }", "x + sum(i in A) { s } <= 1", "x + sum(i in A) { G } <= 1", "x + prod(i in S) { i } <= 1", "x + sum(i in S) { x_i } <= 1"];
+        "min { x, s } >= 0", "max { x, G } >= 0", "abs { s } >= 0", "avg { x, A } >= 0", "all { b, n } ", "any { s }", "x + sum(i in A) { s } <= 1", "x + sum(i in A) { G } <= 1", "x + prod(i in S) { i } <= 1", "x + sum(i in S) { x_i } <= 1",
+        // set functions over iterables of different element kinds, with the elements then used as numbers / as strings
+        "sum(i in union(A, S)) { i * x } <= 1", "sum(i in union(S, A)) { i * x } <= 1", "sum(i in intersection(A, S)) { i * x } <= 1", "sum(i in difference(A, S)) { i * x } <= 1", "sum(i in difference(S, A)) { i * x } <= 1",
+        "sum(i in union(A, M)) { i * x } <= 1", "sum(i in union(A, A)) { i * x } <= 7", "sum(i in union(S, S)) { x_i } <= 7", "sum(i in union(A, nodes(G))) { i * x } <= 1", "x + len(union(A, S)) <= 9", "sum(i in union(A, 3)) { i * x } <= 1", "sum(i in union(A)) { i * x } <= 1"];
     for c in cons_probes.iter() {
         programs.push((format!("min x\ns.t.\n    {}\nwhere\n    let n = 3\n    let k = 2.5\n    let b = true\n    let s = \"str\"\n    let A = [1, 2, 3]\n    let M = [[1, 2], [3, 4]]\n    let S = [\"p\", \"q\"]\n    let G = Graph {{ A -> [B: 2, C], B -> [C], C }}\n    let v = \"A\"\ndefine\n    x as Real\n    x_i as Real for i in 0..4\n    x_p, x_q as Real", c), "probe"));
     }
